@@ -89,6 +89,9 @@ def run(chk):
                 'carries at least one modification or has length >= 3; distinct = distinct protocol line / distinct peptide x mode')
 
     nuc, avg, part = c02h.ref_tables(chk)
+    from peptacular import mass_calc as _mc
+    reach = cm.Reach([_mc.mass, _mc.adjust_mass])
+    reach.start()
 
     def off(mono):
         t = nuc if mono else {**nuc, **avg}
@@ -307,6 +310,7 @@ def run(chk):
         return None
 
     chk.oracle('ion_offset_tables', [(t, m) for t in cm.ION_TYPES for m in (True, False)], o_table)
+    cm.attach_reach(chk, reach)
     if tier == 'thorough':
         chk.leanchecker(['PeptVerif.Props.C05'])
     return chk.finish(classify)
